@@ -36,8 +36,9 @@ type evCall struct {
 // oracle records (the property's reading, independent of the Lean model)
 type oHook struct {
 	ev, handle int
-	link       int // -1: user hook, else source event
-	max, count int
+	link       int    // -1: user hook, else source event
+	max        uint64 // 0 = unlimited
+	count      int
 	fired      int
 	pool       int // 0 no option (inherit the event's pool), 1 own pool, 2 forced in place
 	alive      bool
@@ -45,7 +46,8 @@ type oHook struct {
 }
 
 type oEvent struct {
-	max, count  int
+	max         uint64
+	count       int
 	link        *oHook
 	pre, pooled bool
 }
@@ -145,7 +147,7 @@ func sortPool(cs []evCall) {
 func (v *evWorld) expect(e, a int, async bool, out *[]evCall) {
 	oe := v.oev[e]
 	oe.count++
-	if oe.max != 0 && oe.count > oe.max {
+	if oe.max != 0 && uint64(oe.count) > oe.max {
 		return
 	}
 	n := len(v.ohooks)
@@ -155,7 +157,7 @@ func (v *evWorld) expect(e, a int, async bool, out *[]evCall) {
 			continue
 		}
 		h.count++
-		if h.max != 0 && h.count > h.max {
+		if h.max != 0 && uint64(h.count) > h.max {
 			h.alive = false
 
 			continue
@@ -178,6 +180,14 @@ func (v *evWorld) expect(e, a int, async bool, out *[]evCall) {
 
 func (w *world) execEV(f []string) string {
 	v := w.evw()
+	lim := func(i int) (uint64, bool) { // limits range over all of uint64
+		if i >= len(f) {
+			return 0, false
+		}
+		x, err := strconv.ParseUint(f[i], 10, 64)
+
+		return x, err == nil
+	}
 	num := func(i int) (int, bool) {
 		if i >= len(f) {
 			return 0, false
@@ -191,7 +201,7 @@ func (w *world) execEV(f []string) string {
 	}
 	switch f[0] {
 	case "new":
-		m, ok := num(1)
+		m, ok := lim(1)
 		rest := strings.Join(f[2:], " ")
 		if !ok || !(rest == "" || rest == "pre" || rest == "pool" || rest == "pre pool") {
 			return "bad-op"
@@ -203,7 +213,7 @@ func (w *world) execEV(f []string) string {
 			eopts = append(eopts, event.WithWorkerPool(v.getPool()))
 		}
 		if m > 0 {
-			eopts = append(eopts, event.WithMaxTriggerCount(uint64(m)))
+			eopts = append(eopts, event.WithMaxTriggerCount(m))
 		}
 		if pre {
 			idx := len(v.events)
@@ -215,7 +225,7 @@ func (w *world) execEV(f []string) string {
 		return fmt.Sprintf("e%d", len(v.events)-1)
 	case "hook":
 		e, ok1 := num(1)
-		m, ok2 := num(2)
+		m, ok2 := lim(2)
 		if !ok1 || !ok2 || !(len(f) == 4 || (len(f) == 5 && f[4] == "pre")) || (f[3] != "sync" && f[3] != "pool" && f[3] != "inplace") || e >= len(v.events) {
 			return "bad-op"
 		}
@@ -224,7 +234,7 @@ func (w *world) execEV(f []string) string {
 		h := len(v.hooks)
 		var opts []event.Option
 		if m > 0 {
-			opts = append(opts, event.WithMaxTriggerCount(uint64(m)))
+			opts = append(opts, event.WithMaxTriggerCount(m))
 		}
 		switch pool {
 		case 1:
@@ -354,8 +364,8 @@ func (w *world) execEV(f []string) string {
 		}
 		oh := v.ouser[h]
 		want := oh.count
-		if oh.max != 0 && want > oh.max {
-			want = oh.max
+		if oh.max != 0 && uint64(want) > oh.max {
+			want = int(oh.max)
 		}
 		if oh.fired != want {
 			w.fail("max-trigger-count", fmt.Sprintf("hook h%d with limit %d fired %d times after %d visits", h, oh.max, oh.fired, oh.count),
@@ -368,7 +378,12 @@ func (w *world) execEV(f []string) string {
 	return "bad-op"
 }
 
+// hugeLimits: MaxInt64-1, MaxInt64, MaxInt64+1, MaxUint64-1, MaxUint64 (the counters and limits are uint64).
+var hugeLimits = []string{"9223372036854775806", "9223372036854775807", "9223372036854775808", "18446744073709551614", "18446744073709551615"}
+
 var evCorpus = [][]string{
+	{"ev new 18446744073709551615", "ev hook 0 9223372036854775808 sync", "ev hook 0 9223372036854775807 pool", "ev hook 0 18446744073709551614 sync", "ev hook 0 1 sync", "ev trigger 0 1", "ev trigger 0 2", "ev hcount 0", "ev tcount 0"},
+	{"ev new 9223372036854775808", "ev new 9223372036854775806", "ev hook 1 18446744073709551615 sync", "ev hook 0 0 sync", "ev link 1 0", "ev trigger 0 3", "ev trigger 1 4"},
 	// event-level pool: hooks without a pool option are submitted, WithWorkerPool(nil) forces in-place execution
 	{"ev new 0 pool", "ev hook 0 0 sync", "ev hook 0 0 inplace", "ev hook 0 2 pool pre", "ev trigger 0 5", "ev trigger 0 6", "ev trigger 0 7"},
 	// a link hook on a pooled target: the source's Trigger (its pre-trigger calls and in-place hooks too) runs in a worker
@@ -382,7 +397,8 @@ var evCorpus = [][]string{
 }
 
 func genEV(rng *hx.Rng, n int) []string {
-	limits := []int{0, 0, 0, 1, 2, 3}
+	limits := []string{"0", "0", "0", "1", "2", "3", "1", "2"}
+	limits = append(limits, hx.Pick(rng, hugeLimits)) // around MaxInt64 and MaxUint64: behave like "never reached"
 	ne := 1 + rng.Intn(4)
 	var ops []string
 	for i := 0; i < ne; i++ {
@@ -393,7 +409,7 @@ func genEV(rng *hx.Rng, n int) []string {
 		if rng.Chance(1, 4) {
 			pre += " pool"
 		}
-		ops = append(ops, fmt.Sprintf("ev new %d%s", hx.Pick(rng, []int{0, 0, 0, 1, 2, 4}), pre))
+		ops = append(ops, fmt.Sprintf("ev new %s%s", hx.Pick(rng, []string{"0", "0", "0", "1", "2", "4", hx.Pick(rng, hugeLimits)}), pre))
 	}
 	hooks := 0
 	for i := 0; i < n; i++ {
@@ -408,7 +424,7 @@ func genEV(rng *hx.Rng, n int) []string {
 			if rng.Chance(1, 4) {
 				kind += " pre"
 			}
-			ops = append(ops, fmt.Sprintf("ev hook %d %d %s", rng.Intn(ne), hx.Pick(rng, limits), kind))
+			ops = append(ops, fmt.Sprintf("ev hook %d %s %s", rng.Intn(ne), hx.Pick(rng, limits), kind))
 			hooks++
 		case x < 35:
 			ops = append(ops, fmt.Sprintf("ev unhook %d", rng.Intn(hooks+1)))
